@@ -14,6 +14,7 @@ import (
 	"path/filepath"
 	"sort"
 	"strconv"
+	"strings"
 	"sync"
 	"time"
 )
@@ -38,6 +39,10 @@ type Run struct {
 }
 
 func New(property, part string) *Run {
+	// replay artefacts are labelled with the name the part has in the registry of /verif/check
+	if pn := os.Getenv("VERIF_PART_NAME"); pn != "" && part != pn && !strings.HasPrefix(part, pn+"-") && !strings.HasPrefix(pn, part+"-") {
+		part = pn
+	}
 	r := &Run{Property: property, Part: part, start: time.Now()}
 	r.Tier = os.Getenv("VERIF_TIER")
 	if r.Tier == "" {
